@@ -58,11 +58,15 @@ def classify(g):
             return "EXISTING", pol
         if op == "==" and "0" in (a, b):
             other = b if a == "0" else a
-            if other.startswith("len(") and (other.endswith(".nodes)") or other.endswith("tree_roots)") or other.endswith("tree_nodes)")):
+            if other.startswith("len(") and (other.endswith(".nodes)") or other.endswith("tree_roots)") or other.endswith("tree_nodes)") or other.endswith(".roots)")):
+                return "NOCLONES", pol
+            if other.endswith(".get_number_of_nodes()"):
                 return "NOCLONES", pol
         if op == "<" and a == "0" and b.startswith("len(") and b.endswith("tree_roots)"):
             return "HASROOTS", pol
-    raise AnalysisError("unrecognised guard in a proposal: %s" % show(g))
+    # a test this analysis cannot relate to a state of sample(): it constrains nothing, so the paths it
+    # guards must agree with the accounted probability of every cell they are otherwise consistent with
+    return "OTHER:" + show(g), pol
 
 
 def interval(guards):
@@ -528,8 +532,14 @@ def run(ctx):
     # W1: the weights (same rule objects as C01.K1 / K2)
     from . import C01
 
-    C01.rule_K1(ctx)
-    C01.rule_K2(ctx)
+    from ..formula import imported
+    from . import C14
+
+    ctx._own_rules = set(ctx.rule_min)
+    imported(ctx, C01.rule_K1)
+    imported(ctx, C01.rule_K2)
+    imported(ctx, C01.rule_K3_R1)  # the last-step correction is applied at whichever step is last (first step included)
+    imported(ctx, C14.rule_K1)  # cached proposals / cached new-clone trees are keyed on the concentration
 
 
 _BS = "phyclone/smc/kernels/bootstrap.py"
